@@ -7,7 +7,13 @@ M: transcription of libcoap's server-session bookkeeping
      src/coap_io.c       coap_io_prepare_io_lkd  (retransmission loop, idle reclamation loop)
      src/coap_net.c      coap_free_context_lkd (teardown order), coap_wait_ack / coap_delete_node_lkd (queue node = holder),
                          coap_retransmit, RST branch of coap_dispatch, coap_io_do_epoll_lkd (ends with a prepare pass)
-     src/coap_resource.c coap_add_observer / coap_delete_observer* / coap_delete_observers / coap_free_resource
+     src/coap_resource.c coap_add_observer (token known / same cache key under a NEW token: the old entry is deleted and
+                         a new one created / new entry), coap_delete_observer, coap_delete_observer_request,
+                         coap_delete_observers, coap_free_resource, coap_resource_notify_observers_lkd,
+                         coap_check_notify_lkd / coap_notify_observers (NON notifications: both observable resources of the
+                         harness carry COAP_RESOURCE_FLAGS_NOTIFY_NON_ALWAYS)
+     src/coap_net.c      RST branch of coap_dispatch for a message id that is NOT in the send queue: the observation whose
+                         last notification carried that id is cancelled under a temporary session reference
      src/coap_async.c    coap_register_async_lkd / coap_free_async_sub / coap_delete_all_async
    Every object is a token (a `Nat` serial) in an ALLOCATION LEDGER (`alloc id` / `free id`, chronological).
 
@@ -65,7 +71,9 @@ structure Peer where
 /-- who holds a reference on a session -/
 inductive HKind where
   | app                      -- coap_session_reference() by the application
-  | obs (k : Nat)            -- coap_subscription_t on observable resource k
+  | obs (k q tok note : Nat) -- coap_subscription_t on observable resource k: cache key (query variant q; the key also
+                             -- covers the session and the Uri-Path), token, and `obs->pdu->mid` named by the index
+                             -- (per session, from 1) of the last notification sent for it (0: none sent yet)
   | async                    -- coap_async_t
   | node (cnt due : Nat)     -- coap_queue_t in context->sendqueue (retransmit_cnt, absolute deadline)
   deriving DecidableEq, Repr
@@ -84,6 +92,7 @@ structure Sess where
   last : Nat                 -- last_rx_tx
   conActive : Nat
   delayq : Nat               -- length of session->delayqueue (entries hold NO reference: node->session = NULL)
+  notes : Nat                -- notifications sent on this session so far (each takes a fresh message id of the session)
   deriving DecidableEq, Repr
 
 inductive SEvent where
@@ -99,6 +108,7 @@ structure St where
   sessions : List Sess := []               -- all endpoints' tables, creation order (= uthash iteration order)
   holders : List Holder := []
   resAlive : List Nat := []                -- observable resources still registered
+  dirty : List Nat := []                   -- resources with r->dirty set (then ctx->observe_pending is set as well)
   ctxObjs : List Nat := []                 -- ledger ids of context, endpoints, resources
   ledger : List AllocEvent := []           -- chronological
   events : List SEvent := []               -- chronological
@@ -167,7 +177,7 @@ def St.reclaim (st : St) (sid : Nat) : St :=
 /-- `coap_make_session` + SESSIONS_ADD + COAP_EVENT_SERVER_SESSION_NEW -/
 def St.newSession (st : St) (p : Peer) : St :=
   { st with
-    sessions := st.sessions ++ [⟨st.next, st.nsess, p, 0, st.now, 0, 0⟩],
+    sessions := st.sessions ++ [⟨st.next, st.nsess, p, 0, st.now, 0, 0, 0⟩],
     ledger := st.ledger ++ [.alloc st.next], events := st.events ++ [.new st.next],
     next := st.next + 1, nsess := st.nsess + 1 }
 
@@ -243,7 +253,37 @@ def St.reclaimStep (st : St) (sid : Nat) : St :=
       -- "Make sure the session object is not deleted in any callbacks": reference … release
       (st.updSess sid Sess.reference).updSess sid Sess.release
 
-def St.prepareIo (st : St) : St :=
+/-! ### coap_check_notify_lkd (first statement of coap_io_prepare_io_lkd) -/
+
+def HKind.setNote : HKind → Nat → HKind
+  | .obs k q t _, n => .obs k q t n
+  | x, _ => x
+
+/-- one subscriber of a dirty resource in coap_notify_observers (NON: never postponed, nothing queued):
+    `obs->pdu->mid = response->mid = coap_new_message_id_lkd(obs->session)`, the GET handler fills the response,
+    coap_send_internal → `last_rx_tx = now` -/
+def St.notifyOne (st : St) (h : Holder) : St :=
+  match st.getSess h.sid with
+  | none => st
+  | some s =>
+    let st1 := st.updSess h.sid fun t => { t with last := st.now, notes := s.notes + 1 }
+    { st1 with holders := st1.holders.map fun x => if x = h then { h with kind := h.kind.setNote (s.notes + 1) } else x }
+
+def isObs (k : Nat) : HKind → Bool
+  | .obs j _ _ _ => j == k
+  | _ => false
+
+/-- `LL_FOREACH_SAFE(r->subscribers, obs, otmp)`: the list is LL_PREPENDed, i.e. newest subscription first -/
+def St.notifyRes (st : St) (k : Nat) : St :=
+  ((st.holders.filter fun h => isObs k h.kind).reverse).foldl St.notifyOne st
+
+/-- `if (observe_pending) RESOURCES_ITER(r) coap_notify_observers(r)` (iteration = registration order), `r->dirty = 0` -/
+def St.checkNotify (st : St) : St :=
+  let st1 := (st.resAlive.filter (· ∈ st.dirty)).foldl St.notifyRes st
+  { st1 with dirty := [] }
+
+def St.prepareIo (st0 : St) : St :=
+  let st := st0.checkNotify
   -- retransmissions due (a re-queued node is due strictly later than now, so one pass over a snapshot)
   let due := st.holders.filter fun h => isNode h.kind && nodeDue h.kind ≤ st.now
   let st1 := due.foldl St.retransmit st
@@ -254,8 +294,8 @@ def St.prepareIo (st : St) : St :=
 
 inductive Req where
   | plain                    -- GET /r
-  | obsReg (k : Nat)         -- GET /ok Observe:0
-  | obsDereg (k : Nat)       -- GET /ok Observe:1
+  | obsReg (k q tok : Nat)   -- GET /ok[?x] Observe:0 with token variant tok
+  | obsDereg (k q tok : Nat) -- GET /ok[?x] Observe:1 with token variant tok
   | async                    -- GET /a, handler registers an async entry
   deriving DecidableEq, Repr
 
@@ -268,6 +308,9 @@ inductive Event where
   | appRelease (p : Peer)
   | disconnect (p : Peer)
   | delResource (k : Nat)
+  | changed (k : Nat)        -- application: coap_resource_notify_observers(/ok)
+  | noteRst (p : Peer) (j : Nat)   -- peer answers the notification it received j-th from last (on its session) with RST
+  | noteAck (p : Peer) (j : Nat)   -- … with an empty ACK
   | advance (d : Nat)
   | io
   | setMaxIdle (n : Nat)
@@ -281,12 +324,62 @@ def St.findHolder (st : St) (sid : Nat) (pred : HKind → Bool) : Option Holder 
 def St.holdersOf (st : St) (sid : Nat) (pred : HKind → Bool) : List Holder :=
   st.holders.filter fun h => h.sid == sid && pred h.kind
 
-def isObs (k : Nat) : HKind → Bool
-  | .obs j => j == k
-  | _ => false
 def isAnyObs : HKind → Bool
-  | .obs _ => true
+  | .obs _ _ _ _ => true
   | _ => false
+/-- coap_find_observer(resource k, session, token) -/
+def isObsTok (k tok : Nat) : HKind → Bool
+  | .obs j _ t _ => j == k && t == tok
+  | _ => false
+/-- coap_find_observer_cache_key(resource k, session, key): the key digests the session pointer and every option of the
+    request except Observe / ETag / OSCORE, i.e. here Uri-Path (= k) and Uri-Query (= q) -/
+def isObsKey (k q : Nat) : HKind → Bool
+  | .obs j c _ _ => j == k && c == q
+  | _ => false
+/-- `obs->pdu->mid == pdu->mid` for the message id of the session's `n`-th notification -/
+def hasNote (n : Nat) : HKind → Bool
+  | .obs _ _ _ m => m == n
+  | _ => false
+
+/-- `coap_add_observer(resource k, session, token, request)`.
+    Tokens are unique per (resource, session) — a known token returns the existing entry — and so are cache keys (an entry
+    with the same key is removed before a new one is created), so the first match of a search is the only one. -/
+def St.addObserver (st : St) (sid k q tok : Nat) : St :=
+  match st.findHolder sid (isObsTok k tok) with
+  | some _ => st                                     -- coap_find_observer: subscription exists, returned as it is
+  | none =>
+    match st.findHolder sid (isObsKey k q) with
+    | some old =>
+      -- same resource and query under a new token: `coap_delete_observer(resource, session, &s->pdu->actual_token)`
+      -- (LL_DELETE, coap_session_release_lkd, free), then a new subscription (`coap_session_reference_lkd`)
+      (st.dropHolder old).addHolder sid (.obs k q tok 0)
+    | none => st.addHolder sid (.obs k q tok 0)
+
+/-- `coap_delete_observer_request(resource k, session, token, request)`: by token, else by cache key -/
+def St.delObserverReq (st : St) (sid k q tok : Nat) : St :=
+  match st.findHolder sid (isObsTok k tok) with
+  | some h => st.dropHolder h
+  | none =>
+    match st.findHolder sid (isObsKey k q) with
+    | some h => st.dropHolder h
+    | none => st
+
+/-- RST branch of coap_dispatch when `coap_remove_from_queue` finds nothing (a NON notification is never queued):
+    ```
+    RESOURCES_ITER(r) LL_FOREACH_SAFE(r->subscribers, obs, tmp)
+      if (obs->pdu->mid == pdu->mid && obs->session == session) {
+        coap_session_reference_lkd(session);                          /* "session may get de-referenced" */
+        coap_delete_observer(r, session, &obs->pdu->actual_token);    /* LL_DELETE, coap_session_release_lkd, free */
+        coap_handle_nack(session, NULL, COAP_NACK_RST, pdu->mid);
+        coap_session_release_lkd(session);
+        goto cleanup;
+      }
+    ```
+    `n` is the index of the notification the RST answers; at most one observation carries it. -/
+def St.rstNote (st : St) (sid n : Nat) : St :=
+  match st.findHolder sid (hasNote n) with
+  | some h => ((st.updSess sid Sess.reference).dropHolder h).updSess sid Sess.release
+  | none => st                                       -- only coap_handle_nack
 def isAsync : HKind → Bool
   | .async => true
   | _ => false
@@ -297,16 +390,10 @@ def isApp : HKind → Bool
 /-- the part of `handle_request` / the handler that touches session references -/
 def St.serve (st : St) (sid : Nat) : Req → St
   | .plain => st
-  | .obsReg k =>
-    if k ∈ st.resAlive then
-      match st.findHolder sid (isObs k) with
-      | some _ => st                                 -- coap_find_observer: subscription exists
-      | none => st.addHolder sid (.obs k)
+  | .obsReg k q tok =>
+    if k ∈ st.resAlive then st.addObserver sid k q tok
     else st                                          -- 4.04
-  | .obsDereg k =>
-    match st.findHolder sid (isObs k) with
-    | some h => st.dropHolder h
-    | none => st
+  | .obsDereg k q tok => st.delObserverReq sid k q tok
   | .async =>
     match st.findHolder sid isAsync with
     | some _ => st                                   -- coap_register_async returns NULL (already registered)
@@ -333,8 +420,8 @@ inductive Outcome where
     only arrive on an endpoint of this context -/
 def St.rxSkip (st : St) (p : Peer) (r : Req) : Bool :=
   (match r with
-    | .obsReg k => !(k ∈ st.resAlive)
-    | .obsDereg k => !(k ∈ st.resAlive)
+    | .obsReg k _ _ => !(k ∈ st.resAlive)
+    | .obsDereg k _ _ => !(k ∈ st.resAlive)
     | _ => false) || !((p.lport, p.proto) ∈ st.eps)
 
 def St.step (st : St) (e : Event) : St × Outcome :=
@@ -391,11 +478,35 @@ def St.step (st : St) (e : Event) : St × Outcome :=
       (st2.dropHolders (st2.holdersOf s.sid isNode), .ok)
   | .delResource k =>
     if k ∈ st.resAlive then
-      -- coap_free_resource: every observer is sent a 4.04 notification (last_rx_tx = now), then removed
+      -- coap_free_resource: every observer is sent a 4.04 NON notification (fresh message id, last_rx_tx = now), then
+      -- removed; the resource's dirty flag goes with it
       let obs := st.holders.filter fun h => isObs k h.kind
-      let st1 := obs.foldl (fun acc h => (acc.updSess h.sid fun t => { t with last := st.now }).dropHolder h) st
-      ({ st1 with resAlive := st1.resAlive.filter (· ≠ k) }, .ok)
+      let st1 := obs.foldl (fun acc h =>
+        (acc.updSess h.sid fun t => { t with last := st.now, notes := t.notes + 1 }).dropHolder h) st
+      ({ st1 with resAlive := st1.resAlive.filter (· ≠ k), dirty := st1.dirty.filter (· ≠ k) }, .ok)
     else (st, .skip)
+  | .changed k =>
+    if k ∈ st.resAlive then
+      -- coap_resource_notify_observers_lkd: `if (!r->subscribers) return 0; r->dirty = 1; observe_pending = 1`
+      if st.holders.any (fun h => isObs k h.kind) then ({ st with dirty := k :: st.dirty.filter (· ≠ k) }, .ok)
+      else (st, .ok)
+    else (st, .skip)
+  | .noteRst p j =>
+    match st.lookup p with
+    | none => (st, .skip)
+    | some s =>
+      if j < s.notes then
+        let (st1, sid) := st.getSession p
+        ((st1.rstNote sid (s.notes - j)).prepareIo, .handled sid)
+      else (st, .skip)
+  | .noteAck p j =>
+    match st.lookup p with
+    | none => (st, .skip)
+    | some s =>
+      if j < s.notes then
+        -- ACK branch: coap_remove_from_queue finds nothing, an empty ACK needs no further handling
+        ((st.getSession p).1.prepareIo, .ok)
+      else (st, .skip)
   | .advance d => ({ st with now := st.now + d }, .ok)
   | .io => (st.prepareIo, .ok)
   | .setMaxIdle n => ({ st with maxIdle := n }, .ok)
